@@ -66,6 +66,11 @@ def K(value) -> str:
 
 
 def T(op, *args) -> str:
+    if op == "idx" and len(args) == 2 and args[1].isdigit():
+        # x[:n][i] is x[i] for 0 <= i < n
+        so = STRUCT.get(args[0])
+        if so is not None and so[0] == "slice" and len(so[1]) == 4 and so[1][1] in ("", "0") and so[1][3] == "" and so[1][2].isdigit() and int(args[1]) < int(so[1][2]):
+            args = (so[1][0], args[1])
     t = f"{op}(" + ",".join(args) + ")"
     STRUCT.setdefault(t, (op, tuple(args)))
     return t
@@ -283,9 +288,13 @@ class TermRule(BaseRule):
         """append/extend on a local list (add/update on a local set) whose content is known: the variable is re-bound to the
         longer list/set term.  `xs.extend(E(x) for x in I)` adds the same elements as `for x in I: xs.append(E(x))`."""
         f = node.func
-        if not (isinstance(f, ast.Attribute) and isinstance(f.value, ast.Name) and recv is not None and recv.sym and recv.sym.startswith(("list(", "set("))):
+        if not (isinstance(f, ast.Attribute) and isinstance(f.value, ast.Name) and recv is not None and recv.sym and recv.sym.startswith(("list(", "set(", "listcomp(", "setcomp("))):
             return None
         op, elts = destruct(recv.sym)
+        if op in ("listcomp", "setcomp"):
+            # a list built by a comprehension and then appended to: list(<its elements>, x)
+            first = T("rep", elts[0], elts[1]) if len(elts) == 2 else T("star", recv.sym)
+            op, elts = ("list" if op == "listcomp" else "set"), (first,)
         kind = {"append": "list", "extend": "list", "add": "set", "update": "set"}.get(f.attr)
         if op != kind or len(pos) != 1:
             return None
@@ -334,58 +343,8 @@ class TermRule(BaseRule):
         res, raises = it.truth_fork(st, expr)
         return list(raises) + [Out("normal", s, const(b)) for s, b in res]
 
-    def _signature(self, it, node, recv, q):
-        """positional-or-keyword parameter names of a repo callee (None when the callee is not a repo function)"""
-        m = it.m
-        f = node.func
-        fi = None
-        if isinstance(f, ast.Attribute):
-            if recv is not None and recv.kind == "self" and it.self_cls:
-                fi = m.find_method(it.self_cls, f.attr)
-            elif isinstance(f.value, ast.Name) and f.value.id == "cls" and it.self_cls:
-                fi = m.find_method(it.self_cls, f.attr)
-            elif isinstance(f.value, ast.Call) and ast.unparse(f.value.func) == "super" and it.self_cls:
-                for c in m.mro(it.self_cls)[1:]:
-                    ci = m.classes.get(c)
-                    if ci is not None and f.attr in ci.methods:
-                        fi = ci.methods[f.attr]
-                        break
-            elif q and q in m.funcs:
-                fi = m.funcs[q]
-        elif isinstance(f, ast.Name) and q:
-            if q in m.funcs:
-                fi = m.funcs[q]
-            elif q in m.classes:
-                fi = m.find_method(q, "__init__")
-                if fi is None or not fi.qual.startswith("urllib3."):
-                    ci = m.classes[q]
-                    names = [n.target.id for n in ci.node.body if isinstance(n, ast.AnnAssign) and isinstance(n.target, ast.Name)]
-                    return names or None
-        if fi is None or not fi.qual.startswith("urllib3."):
-            return None
-        a = fi.node.args
-        names = [x.arg for x in a.posonlyargs + a.args]
-        if fi.cls is not None and names and names[0] in ("self", "cls") and not any("staticmethod" in d for d in fi.decorators):
-            names = names[1:]
-        return names
-
     def _canon_args(self, it, node, recv, q, pos, kw):
-        """f(a, y=b) and f(a, b) are the same call when y is f's second parameter: keywords that continue the positional
-        prefix of a repo callee's signature are moved into it."""
-        if not kw or "*" in kw:
-            return pos, kw
-        try:
-            names = self._signature(it, node, recv, q)
-        except Exception:
-            names = None
-        if not names:
-            return pos, kw
-        pos, kw = list(pos), dict(kw)
-        i = len(pos)
-        while i < len(names) and names[i] in kw:
-            pos.append(kw.pop(names[i]))
-            i += 1
-        return pos, kw
+        return it.canon_args(node, recv, pos, kw)
 
     def compare(self, it, st, node, a, b):
         """x[:n] == "lit" (len n), x[-n:] == "lit", x[0] == "c", x[-1] == "c" are the questions startswith / endswith ask:
@@ -457,6 +416,10 @@ class TermRule(BaseRule):
         return outs
 
     def call(self, it, st, node, recv, pos, kw):
+        try:
+            pos, kw = self._canon_args(it, node, recv, it.resolve_callee(node, recv), pos, kw)  # hooks of every term rule see canonical arguments
+        except Exception:
+            pass
         r = self.call_hook(it, st, node, recv, pos, kw)
         if r is not None:
             return r
